@@ -7,7 +7,7 @@ use xeh::prelude::*;
 pub const DEF: PropDef = PropDef {
     id: "C17",
     rule: "1-4 sources evaluated on one interpreter (eval or compile+run); the last one contains exactly one culprit token at a generated position: build-time (unknown word incl. non-ASCII names, malformed number / string escape / bit-string literal, unmatched closer, `! unknown`) or run-time (/ by zero, + on a string, drop on empty, assert, error, nth out of range, if on a non-flag, do with a bad range) \
-at top level, inside a definition called through 1-4 levels (possibly defined in an earlier source), inside do/begin loops, case arms, meta blocks (before/after other meta blocks), text injected by ~). Filler around it: stack-neutral statements, line and block comments, strings with multi-byte characters and raw newlines, LF / CRLF line ends, tabs. \
+at top level, inside a definition called through 1-4 levels (possibly defined in an earlier source), inside do/begin loops, case arms, meta blocks (before/after other meta blocks), text injected by ~), and (1 case in 8) a file pulled in by include / require. Filler around it: stack-neutral statements, line and block comments, strings with multi-byte characters and raw newlines, LF / CRLF line ends, tabs. \
 Oracle: an independent scanner computes from the source text and the culprit's byte span the line (LF count), column (characters since the last line break), and line text; last_err_location() must name the right source (`<buffer#k>` with k counted by the harness, and the token's parent text), its token range must be the culprit span, line/col/whole_line must equal the scanner's, and pretty_error() must contain the name:line:col header and a caret under the column. \
 Non-trivial = culprit not on line 1, or preceded on its line by a multi-byte character or tab, or at call depth >= 1, or after a meta block; distinct = hash of all sources",
     assumptions: &[
@@ -141,7 +141,15 @@ fn scan(text: &str, pos: usize) -> (usize, usize, String) {
 
 pub fn case(ch: &mut Choices, ctx: &CaseCtx) -> CaseOut {
     let mut out = CaseOut::default();
-    let mut xs = xs::fresh();
+    // 1 case in 8 puts the culprit into a file pulled in by include / require (needs the real words, not the stubs)
+    let in_file = ch.chance(1, 8);
+    let mut xs = if in_file {
+        let mut x = Xstate::boot().expect("boot");
+        x.intercept_stdout(true);
+        x
+    } else {
+        xs::fresh()
+    };
     xs.set_insn_limit(Some(100_000)).unwrap();
     let mut nsources = 0usize; // sources interned so far (buffers are numbered in order)
     let mut all_sources: Vec<String> = Vec::new();
@@ -153,7 +161,7 @@ pub fn case(ch: &mut Choices, ctx: &CaseCtx) -> CaseOut {
     let cul: &'static Culprit = if run_time { &RUN[ch.below(RUN.len())] } else { &BUILD[ch.below(BUILD.len())] };
     // placement of a run-time culprit
     let depth = if run_time { ch.weighted(&[4, 3, 2, 1, 1]) } else { 0 };
-    let in_earlier_source = run_time && depth >= 1 && nprev > 0 && ch.chance(1, 3);
+    let in_earlier_source = !in_file && run_time && depth >= 1 && nprev > 0 && ch.chance(1, 3);
     for i in 0..nprev {
         let mut pb = Builder { text: String::new(), uid: 100 * (i + 1) };
         pb.filler(ch, 3);
@@ -186,7 +194,48 @@ pub fn case(ch: &mut Choices, ctx: &CaseCtx) -> CaseOut {
     let mut expect_buffer: usize;
     let wrap = if run_time && depth == 0 { ch.weighted(&[4, 2, 2, 2, 2, 2]) } else { 0 };
     let mut injected = false;
-    if let Some((text, span, idx, _)) = &deferred_def {
+    let mut expect_name: Option<String> = None;
+    if in_file {
+        // the culprit lives in an included file: <filler> [definition chain | culprit at top level] <filler>
+        thread_local! { static NFILE: std::cell::Cell<usize> = std::cell::Cell::new(0); }
+        let k = NFILE.with(|c| {
+            c.set(c.get() + 1);
+            c.get()
+        });
+        let dir = format!("{}/.run/c17-{}", verif_root(), std::process::id());
+        let _ = std::fs::create_dir_all(&dir);
+        let path = format!("{}/inc{}.xeh", dir, k % 64);
+        let mut fb = Builder { text: String::new(), uid: 5000 };
+        fb.filler(ch, 3);
+        let span;
+        if run_time && depth >= 1 {
+            span = emit_chain(&mut fb, ch, cul, depth);
+        } else {
+            if !cul.pre.is_empty() {
+                fb.raw(cul.pre);
+                fb.sep(ch);
+            }
+            span = fb.token(cul.token);
+            fb.sep(ch);
+            if !cul.post.is_empty() {
+                fb.raw(cul.post);
+                fb.sep(ch);
+            }
+        }
+        fb.filler(ch, 2);
+        let _ = std::fs::write(&path, &fb.text);
+        b.raw(&format!("{} {}", ["include", "require"][ch.below(2)], xs::str_lit(&path)));
+        b.sep(ch);
+        if run_time && depth >= 1 {
+            b.raw(&format!("chain{}_{}", depth, 0));
+            b.sep(ch);
+        }
+        b.filler(ch, 2);
+        expect_text = fb.text.clone();
+        expect_span = span;
+        expect_buffer = 0;
+        expect_name = Some(path);
+    } else if let Some((text, span, idx, _)) = &deferred_def {
         // call the chain defined earlier
         b.raw(&format!("chain{}_{}", depth, 0));
         expect_text = text.clone();
@@ -285,7 +334,9 @@ pub fn case(ch: &mut Choices, ctx: &CaseCtx) -> CaseOut {
         expect_span,
         expect_buffer
     );
-    let placement = if injected {
+    let placement = if in_file {
+        "included-file"
+    } else if injected {
         "injected"
     } else if deferred_def.is_some() {
         "called-word-in-earlier-source"
@@ -304,6 +355,7 @@ pub fn case(ch: &mut Choices, ctx: &CaseCtx) -> CaseOut {
             match xs.last_err_location() {
                 None => fail(&mut out, "no location reported", xs::render_err(&e)),
                 Some(loc) => {
+                    let want_name = expect_name.clone().unwrap_or_else(|| format!("<buffer#{}>", expect_buffer));
                     let parent: String = loc.token.parent().to_string();
                     let r = loc.token.range();
                     let (wl, wc, wline) = scan(&expect_text, expect_span.0);
@@ -315,15 +367,15 @@ pub fn case(ch: &mut Choices, ctx: &CaseCtx) -> CaseOut {
                         fail(&mut out, "location is in the wrong source text", format!("reported source {:?} token {:?}", parent, loc.token.as_str()));
                     } else if !span_ok {
                         fail(&mut out, "quoted token is not the culprit", format!("reported {:?} at {:?}; error {}", loc.token.as_str(), r, xs::render_err(&e)));
-                    } else if loc.filename.as_str() != format!("<buffer#{}>", expect_buffer) {
-                        fail(&mut out, "wrong source name", format!("reported {} expected <buffer#{}>", loc.filename, expect_buffer));
+                    } else if loc.filename.as_str() != want_name {
+                        fail(&mut out, "wrong source name", format!("reported {} expected {}", loc.filename, want_name));
                     } else if loc.line != wl || loc.col != wc {
                         fail(&mut out, "wrong line/column", format!("reported {}:{} scanner {}:{}", loc.line, loc.col, wl, wc));
                     } else if loc.whole_line.as_str() != wline {
                         fail(&mut out, "wrong quoted line", format!("reported {:?} scanner {:?}", loc.whole_line.as_str(), wline));
                     } else {
                         let pe = xs.pretty_error().unwrap_or_default();
-                        let header = format!("<buffer#{}>:{}:{}", expect_buffer, wl + 1, wc + 1);
+                        let header = format!("{}:{}:{}", want_name, wl + 1, wc + 1);
                         let caret = format!("\n{}^", "-".repeat(wc));
                         if !pe.contains(&header) || !pe.ends_with(&caret) || !pe.contains(&format!("\n{}\n", wline)) {
                             fail(&mut out, "pretty_error does not show header, line and caret", format!("{:?} expected header {:?} caret {:?}", pe, header, caret));
@@ -332,7 +384,7 @@ pub fn case(ch: &mut Choices, ctx: &CaseCtx) -> CaseOut {
                     // classification
                     let line_prefix = &expect_text[..expect_span.0];
                     let this_line = &line_prefix[line_prefix.rfind(|c| c == '\n' || c == '\r').map(|i| i + 1).unwrap_or(0)..];
-                    out.nontrivial = wl > 0 || this_line.chars().any(|c| c == '\t' || c.len_utf8() > 1) || depth >= 1 || after_meta || injected;
+                    out.nontrivial = in_file || wl > 0 || this_line.chars().any(|c| c == '\t' || c.len_utf8() > 1) || depth >= 1 || after_meta || injected;
                 }
             }
         }
